@@ -347,3 +347,32 @@ class Report:
         print(f"OK property={self.pid} tier={self.tier} states={self.states} "
               f"traces={self.traces} wall={ev['wall_s']}s")
         return 0
+
+
+# --------------------------------------------------------------------------------------
+# Apalache (SMT): unbounded / value-independent laws of small typed modules
+
+
+def apalache_laws(rep, wd: Path, module: str, part: str, domain: str, laws: str = "Laws", non_law: str = "NotALaw",
+                  timeout: int = 900) -> None:
+    """`apalache-mc check --length=0 --inv=<laws>` must report NoError, the same set-up must reject <non_law>."""
+    d = wd / ("apalache_" + module)
+    d.mkdir(exist_ok=True)
+    shutil.copy(SPEC / f"{module}.tla", d / f"{module}.tla")
+    res: Dict[str, Any] = {}
+    for inv, want in ((laws, "NoError"), (non_law, "Error")):
+        t0 = time.time()
+        try:
+            p = subprocess.run(["apalache-mc", "check", "--length=0", f"--inv={inv}", f"--out-dir={d / ('out_' + inv)}",
+                                f"{module}.tla"], cwd=d, capture_output=True, text=True, timeout=timeout)
+            out = p.stdout + p.stderr
+        except (subprocess.TimeoutExpired, OSError) as ex:
+            rep.machinery(f"apalache-mc could not be run on {module} ({inv}): {ex}")
+            return
+        outcome = "NoError" if "The outcome is: NoError" in out else ("Error" if "The outcome is: Error" in out else "?")
+        res[inv] = {"outcome": outcome, "wall_s": round(time.time() - t0, 1)}
+        if inv == laws and outcome == "Error":
+            rep.violation(f"Apalache: a law of {module} does not hold over {domain}", {"apalache_out": out[-4000:]})
+        elif outcome != want:
+            rep.machinery(f"apalache-mc on {module} ({inv}): expected {want}, got {outcome}: {out[-600:]}")
+    rep.parts[part] = {"module": module, "domain": domain, "length": 0, **res}
